@@ -19,11 +19,11 @@ BASES = [b'/p/base', b'/base']
 CWDS = {'equal': None, 'ancestor': b'/p', 'unrelated': b'/other/place', 'root': b'/'}
 
 
-def h_run(m, ctx, depth, cwd_kind, shell_cmd=b'', ncont=1, exit_code=None, mode='Build', base=b'/p/base', empty_cont=None):
+def h_run(m, ctx, depth, cwd_kind, shell_cmd=b'', ncont=1, exit_code=None, mode='Build', base=b'/p/base', empty_cont=None, srcdir_abs=None, rel_path_shell=False):
     it = Interp(m, ctx)
     cwd = CWDS[cwd_kind] or base
     subdirs = [b's1', b's2', b's3'][:depth]
-    srcdir = base + b''.join(b'/' + s for s in subdirs)
+    srcdir = srcdir_abs if srcdir_abs is not None else base + b''.join(b'/' + s for s in subdirs)
     src = srcdir + b'/a.txt.txtpp'
     # command: first line + continuation lines with symbolic bytes (printable, no blanks at the end: rtrim is C15)
     PRN = [c for c in range(33, 127)]
@@ -46,6 +46,11 @@ def h_run(m, ctx, depth, cwd_kind, shell_cmd=b'', ncont=1, exit_code=None, mode=
     env.add_file(src, source)
     env.add_file(b'/bin/sh', b'')
     env.add_file(b'/usr/bin/bash', b'')
+    if rel_path_shell:
+        # a shell that is found through a relative $PATH entry (relative to the process cwd, as the OS resolves it)
+        env.add_dir(cwd + b'/tools/bin')
+        env.add_file(cwd.rstrip(b'/') + b'/tools/bin/mysh', b'')
+        env.env_vars[b'PATH'] = b'tools/bin:/usr/bin:/bin'
     rec_box = []
     # exit status: 0, non-zero code, or killed by a signal (ExitStatus::code() == None, success() == false)
     code = exit_code if exit_code is not None else [0, 1, None][ctx.choose(3, 'exit')]
@@ -59,7 +64,7 @@ def h_run(m, ctx, depth, cwd_kind, shell_cmd=b'', ncont=1, exit_code=None, mode=
     shell_new = m.find_method('Shell', 'new')
     sr = it.call_mir(shell_new, [StrV(tuple(shell_cmd))])
     data = {'op': 'run', 'depth': depth, 'cwd': cwd.decode(), 'base': base.decode(), 'src': src.decode(), 'shell_cmd': shell_cmd.decode(),
-            'source': syms_of(source), 'exit': code, 'out': syms_of(outb), 'mode': mode}
+            'source': syms_of(source), 'exit': code, 'out': syms_of(outb), 'mode': mode, 'rel_path_shell': rel_path_shell}
     if sr.idx != 0:
         violation(ctx, 'Shell::new failed for an installed shell', data)
     shell = sr.f[0]
@@ -76,11 +81,15 @@ def h_run(m, ctx, depth, cwd_kind, shell_cmd=b'', ncont=1, exit_code=None, mode=
     want_exe, want_args = (b'/bin/sh', [b'-c']) if not shell_cmd.strip() else (None, None)
     if shell_cmd.strip():
         parts = shell_cmd.split()
-        want_exe = {b'sh': b'/bin/sh', b'bash': b'/usr/bin/bash'}[parts[0]]
+        want_exe = {b'sh': b'/bin/sh', b'bash': b'/usr/bin/bash', b'mysh': cwd.rstrip(b'/') + b'/tools/bin/mysh'}[parts[0]]
         want_args = parts[1:]
+    # the program as the OS resolves it: a relative program path containing a separator is looked up relative to the
+    # directory the child is started in (Command::current_dir applies first on Unix)
+    child_dir = cwd if rec['cwd'] is None else bytes(comps_to_bytes(normalize_abs(it, rec['cwd'].b, cwd)))
     exe = bytes(rec['exe'].b)
-    if exe != want_exe:
-        violation(ctx, 'program is %r, expected the configured shell %r' % (exe, want_exe), data)
+    exe_abs = bytes(comps_to_bytes(normalize_abs(it, exe, child_dir)))
+    if exe_abs != want_exe:
+        violation(ctx, 'program %r started in %r is %r, expected the configured shell %r' % (exe, child_dir, exe_abs, want_exe), data)
     args = [a.b for a in rec['args']]
     if len(args) != len(want_args) + 1 or [bytes(a) for a in args[:-1]] != want_args:
         violation(ctx, 'shell arguments %r, expected %r + [command]' % (args[:-1], want_args), data)
@@ -215,6 +224,15 @@ def jobs(tier):
     for ec in (0, 1):
         js.append({'name': 'run with an empty argument line at %d' % ec, 'harness': (H, 'h_run'), 'mir': MIR_KINDS,
                    'params': {'depth': 1, 'cwd_kind': 'equal', 'ncont': 2, 'empty_cont': ec}})
+    # sources that are not below the base directory (named as ../sibling/x or by an absolute path): a sibling whose
+    # name merely starts with the base directory's name, and an unrelated directory
+    for sd in (b'/p/base-docs/s1', b'/p/base2', b'/q/s1', b'/p'):
+        for ck in ('equal', 'unrelated'):
+            js.append({'name': 'run source outside base: %s cwd=%s' % (sd.decode(), ck), 'harness': (H, 'h_run'), 'mir': MIR_KINDS,
+                       'params': {'depth': 1, 'cwd_kind': ck, 'srcdir_abs': sd, 'exit_code': 0}})
+    for depth in (0, 1, 2):
+        js.append({'name': 'run shell found through a relative PATH entry depth=%d' % depth, 'harness': (H, 'h_run'), 'mir': MIR_KINDS,
+                   'params': {'depth': depth, 'cwd_kind': 'equal', 'shell_cmd': b'mysh -c', 'rel_path_shell': True, 'exit_code': 0}})
     js.append({'name': 'run single line', 'harness': (H, 'h_run'), 'mir': MIR_KINDS, 'params': {'depth': 1, 'cwd_kind': 'equal', 'ncont': 0}})
     for mode in ('InMemoryBuild', 'Clean'):
         js.append({'name': 'run mode=%s' % mode, 'harness': (H, 'h_run'), 'mir': MIR_KINDS, 'params': {'depth': 1, 'cwd_kind': 'ancestor', 'mode': mode, 'exit_code': 0}})
@@ -225,7 +243,7 @@ def jobs(tier):
 
 
 BOUNDS = {'quick': 'sources at depth 0-3 below the base directory x process cwd equal / ancestor / unrelated / root x default and overridden shell x '
-                   '1-2 command lines of 2 symbolic printable bytes each x exit status 0/1 x all four modes; main(): every combination of the '
+                   'sources outside the base directory (sibling sharing a name prefix, unrelated, parent) x 1-2 command lines of 2 symbolic printable bytes each x exit status 0/1 x all four modes; main(): every combination of the '
                    'boolean flags, 3 thread counts, 3 sub-commands, TXTPP_FILE unset / empty / set',
           'thorough': 'same with 3 command lines'}
 ASSUMPTIONS = ['std::process::Command is a recording contract model; Command::current_dir is resolved against the process cwd as documented',
@@ -292,6 +310,27 @@ def replay(native, v):
         want = b' '.join([ls[0][len(b'-TXTPP#run '):]] + [l[1:] for l in ls[1:]])
         shutil.rmtree(root, ignore_errors=True)
         return got != want, {'source': repr(srcb), 'command received by the shell': repr(got), 'expected': repr(want)}
+    if d.get('rel_path_shell'):
+        # the CLI (base = process cwd) with a shell that is found through a relative $PATH entry
+        root = tempfile.mkdtemp(prefix='replay-relsh-', dir=build.scratch_dir())
+        src = root + d['src'][len(d['base']):]
+        os.makedirs(os.path.dirname(src), exist_ok=True)
+        os.makedirs(os.path.join(root, 'tools', 'bin'))
+        sh = os.path.join(root, 'tools', 'bin', 'mysh')
+        open(sh, 'w').write('#!/bin/sh\nexec /bin/sh "$@"\n')
+        os.chmod(sh, 0o755)
+        open(src, 'wb').write(b'-TXTPP#run pwd\n')
+        e = dict(os.environ)
+        e.pop('TXTPP_FILE', None)
+        e['PATH'] = 'tools/bin:' + e.get('PATH', '/usr/bin:/bin')
+        r = subprocess.run([ppreplay.cli_path(), '-q', '-s', 'mysh -c', os.path.relpath(src, root)], cwd=root, env=e, capture_output=True)
+        outp = src[:-len('.txtpp')]
+        got = open(outp, 'rb').read() if os.path.exists(outp) else None
+        detail = {'PATH': 'tools/bin:...', 'shell': 'mysh -c', 'source': os.path.relpath(src, root), 'rc': r.returncode,
+                  'stderr': r.stderr.decode('latin1')[:600], 'output (pwd)': repr(got)}
+        bad = not (r.returncode == 0 and got is not None and os.path.realpath(got.decode().strip()) == os.path.realpath(os.path.dirname(src)))
+        shutil.rmtree(root, ignore_errors=True)
+        return bad, detail
     # run contract: library entry point with base != cwd through the helper
     root = tempfile.mkdtemp(prefix='replay-run-', dir=build.scratch_dir())
     base = root + d['base']
@@ -299,6 +338,7 @@ def replay(native, v):
     src = root + d['src']
     os.makedirs(os.path.dirname(src), exist_ok=True)
     os.makedirs(cwd, exist_ok=True)
+    os.makedirs(base, exist_ok=True)
     srcb = ppreplay.conc(d['source'], model)
     # replace the symbolic command by an observable one with the same line structure
     nl = srcb.count(b'\n')
